@@ -21,7 +21,7 @@ def make(cfg, mon, flow=None):
     return a, p
 
 
-def one_run(cfg, path, fault_at=None, resume=False, train=None):
+def one_run(cfg, path, fault_at=None, resume=False, train=None, in_context=False, finish_resume=False):
     """Run through Aspire.sample_posterior(checkpoint_path=path) with a zuko flow."""
     import _kernel
     import orng
@@ -49,13 +49,31 @@ def one_run(cfg, path, fault_at=None, resume=False, train=None):
             lo = np.array([p["bounds"][k][0] for k in p["parameters"]])
             hi = np.array([p["bounds"][k][1] for k in p["parameters"]])
             x = lo + (hi - lo) * (0.25 + 0.5 * rng.uniform(size=(64, 2)))
+            if in_context:
+                # everything inside one auto_checkpoint context: the fit writes a config (without sampler) first
+                with a.auto_checkpoint(path, every=cfg["cadence"]):
+                    a.fit(Samples(x=x, parameters=p["parameters"], xp=get_xp("numpy")), n_epochs=2, batch_size=32)
+                    torch.manual_seed(cfg["seed"])
+                    out.aspire = a
+                    res = a.sample_posterior(n_samples=cfg["N"], sampler="smc", preconditioning=p["preconditioning"],
+                                             preconditioning_kwargs=pk, sampler_kwargs={"n_steps": 2}, **kw)
+                out.result = {"final": rh.snapshot_samples(res), "log_evidence": float(tonp(res.log_evidence)),
+                              "log_evidence_error": float(tonp(res.log_evidence_error))}
+                raise StopIteration
             a.fit(Samples(x=x, parameters=p["parameters"], xp=get_xp("numpy")), n_epochs=2, batch_size=32)
             torch.manual_seed(cfg["seed"])
-        res = a.sample_posterior(n_samples=cfg["N"], sampler="smc", preconditioning=p["preconditioning"],
-                                 preconditioning_kwargs=pk, checkpoint_path=path, checkpoint_every=cfg["cadence"],
-                                 sampler_kwargs={"n_steps": 2}, **kw)
+        if resume and finish_resume:
+            # the documented resume route: no sampler argument, everything comes from the file
+            res = a.sample_posterior(preconditioning=p["preconditioning"], preconditioning_kwargs=pk,
+                                     sampler_kwargs={"n_steps": 2}, **kw)
+        else:
+            res = a.sample_posterior(n_samples=cfg["N"], sampler="smc", preconditioning=p["preconditioning"],
+                                     preconditioning_kwargs=pk, checkpoint_path=path, checkpoint_every=cfg["cadence"],
+                                     sampler_kwargs={"n_steps": 2}, **kw)
         out.result = {"final": rh.snapshot_samples(res), "log_evidence": float(tonp(res.log_evidence)),
                       "log_evidence_error": float(tonp(res.log_evidence_error))}
+    except StopIteration:
+        pass
     except InjectedFault as e:
         out.exception = ("InjectedFault", str(e))
     except Exception as e:
